@@ -125,14 +125,16 @@ def run(ctx):
   model_check(ctx, "MC_full1q.cfg" if quick else "MC_full1.cfg",
               "SwitchRPC table capacity 1 (table-full answers)")
   if not quick:
-    model_check(ctx, "MC_big.cfg", "SwitchRPC 2 buffers, counters<=2")
+    model_check(ctx, "MC_big.cfg", "SwitchRPC 2 buffers, counters<=2, 1 xid")
   # 2. spec -> code: every transition of the abstract graph (probe after each step)
   r = tlc.run(DIR, MOD, "EX_edges_cfg.cfg", workers=1, coverage=False, tag="C13")
   replay(ctx, "edges_config", r.tagged("T"), dict(seed=sd * 7 + 1, probe=True, **SMALL))
   # quick: TLC exports the transitions leaving a seed-chosen 1/8 of the states (every kind of
   # transition, from every slice of the state space), of which a stratified sample is replayed
-  r = tlc.run(DIR, MOD, "EX_edges_tblq.cfg" if quick else "EX_edges_tbl.cfg", workers=1, coverage=False,
-              tag="C13", timeout=1500, env={"C13_SAMPLE_K": str(sd % 8)})
+  # (thorough: the transitions leaving a seed-chosen half of the states, all replayed;
+  # EX_edges_tbl.cfg exports the whole graph, 124k behaviours, for runs without a time budget)
+  r = tlc.run(DIR, MOD, "EX_edges_tblq.cfg" if quick else "EX_edges_tblh.cfg", workers=1, coverage=False,
+              tag="C13", timeout=1500, env={"C13_SAMPLE_K": str(sd % 8 if quick else sd % 2)})
   behs = r.tagged("T")
   total = len(behs)
   if quick:
